@@ -189,7 +189,8 @@ PROPS.update({
         assumptions=COMMON_ASSUME + ['f64 rounding of the quotient is not modelled: values are compared with relative tolerance 1e-9'],
     ),
     'C18': dict(
-        extra_modules=['GraphrsModel.Props.C18Model'],
+        extra_modules=['GraphrsModel.Props.C18Model', 'GraphrsModel.Props.FormulasC18'],
+        translators=['formulas'],
         gens=[('eig', 'small', 1500, 25000, 7), ('eig', 'small', 100, 2000, 16), ('eig', 'small', 60, 1000, 32)],
         spec_fields=[r'ok\.eig'], model_fields=[r'build', r'agree\.eig'],
         nontrivial=lambda req, I: I.get('eig:b', '').count('>') >= 2,
